@@ -613,8 +613,19 @@ def observations05(chk, binary):
             rep = any(t == 'status:recovered:d1:a' for t in r.tags)
             out['fix_start_after_first_block_of_missing_file'] = {'rc': r.rc, 'file_present': there, 'bytes_are_recorded': data == A, 'reported_recovered': rep,
                                                                   'mtime_recorded': there and os.stat(p).st_mtime_ns == 1700000000 * 10**9}
-            if there and data != A and rep:
+            if there and data != A:
                 key = 'F-C05-fix-start-range-recovers-file-with-hole'
+                # exact attribution: fix -S n with n > 0, the file was missing before the run, its first recorded block lies before
+                # n, it is left under its name with a zero-filled head (the blocks before n) and the recorded bytes from n on;
+                # anything else is a plain violation
+                st = a.content()
+                f = [x for x in st['disks']['d1']['files'] if x['sub'] == b'a'][0]
+                first = min(pos for s_, pos, h in f['blocks'])
+                exact = first < 1 and len(data) == len(A) and data[:1024] == bytes(1024) and data[1024:] == A[1024:]
+                if not exact:
+                    chk.violation('obs_start_range', '`fix -S 1` on a missing file leaves d1/a with bytes that are neither the recorded ones nor the recorded ones with a zero-filled head (exit %d, reported recovered: %s)' % (r.rc, rep),
+                                  {'recipe': '2 data disks, 1 parity, blocksize 1; d1/a 2560 B, d2/b 1024 B; sync; rm d1/a; fix -S 1'})
+                    return out
                 msg = ('`fix -S 1` on a missing 3-block file (blocks at positions 0-2) recreates it with block 0 zero-filled, reports status:recovered, '
                        'restores the recorded mtime and exits %d; the file has the recorded size and time-stamp, so diff/sync see it as unchanged' % r.rc)
                 if any(k.get('property') == 'C05' and k.get('key') == key for k in chk.kf):
